@@ -41,8 +41,8 @@ def crc32c(data: bytes) -> int:
     return c ^ 0xFFFFFFFF
 
 
-def header(seq: int, fw: bytes, dw: bytes, log_off: int, log_len: int = MB, checksum: bool = True) -> bytes:
-    h = struct.pack("<4sIQ16s16s16sHHIQ", b"head", 0, seq, fw, dw, b"\0" * 16, 0, 1, log_len, log_off)
+def header(seq: int, fw: bytes, dw: bytes, log_off: int, log_len: int = MB, checksum: bool = True, log_guid: bytes = b"\0" * 16) -> bytes:
+    h = struct.pack("<4sIQ16s16s16sHHIQ", b"head", 0, seq, fw, dw, log_guid, 0, 1, log_len, log_off)
     h = h.ljust(4096, b"\0")
     if checksum:
         h = h[:4] + struct.pack("<I", crc32c(h)) + h[8:]
@@ -97,7 +97,7 @@ def build(rng, *, block_size: int, sector_size: int, nblocks: int, tail_cut_sect
           has_parent: bool = False, locator: bytes | None = None, partial: dict | None = None,
           disk_id: bytes | None = None, physical_sector_size: int = 4096, far_mb: int = 0, stale_offsets: bool = True,
           meta_item_order=None, item_gap: int = 0, creator: str = "vf writer", leave_alloc: bool = False,
-          bat_mb: int | None = None, meta_mb: int | None = None, checksums: bool = True):
+          bat_mb: int | None = None, meta_mb: int | None = None, checksums: bool = True, meta_table_order=None, log_guids=(None, None)):
     """-> (SparseFile, Layer, meta).
 
     states[i]: 0 not-present, 1 undefined, 2 zero, 3 unmapped, 6 fully present, 7 partially present.
@@ -187,8 +187,8 @@ def build(rng, *, block_size: int, sector_size: int, nblocks: int, tail_cut_sect
     sf.put(0, fid.ljust(512 + 8, b"\0")[:520])
     fw = bytes(rng.randrange(256) for _ in range(16))
     dw = bytes(rng.randrange(256) for _ in range(16))
-    h1 = header(seqs[0], fw, dw, MB, checksum=checksums)
-    h2 = header(seqs[1], fw, dw, MB, checksum=checksums)
+    h1 = header(seqs[0], fw, dw, MB, checksum=checksums, log_guid=log_guids[0] or b"\0" * 16)
+    h2 = header(seqs[1], fw, dw, MB, checksum=checksums, log_guid=log_guids[1] or b"\0" * 16)
     if stale == "zero":
         # the non-current header is blank (e.g. a freshly created file before the second header update)
         if seqs[0] > seqs[1]:
@@ -222,11 +222,18 @@ def build(rng, *, block_size: int, sector_size: int, nblocks: int, tail_cut_sect
     mt = struct.pack("<8s2xH20x", b"metadata", len(items))
     off = KB64 + item_gap
     blob = {}
+    entries = []
     for g, d, fl in items:
-        mt += g + struct.pack("<III4x", off, len(d), fl)
+        entries.append(g + struct.pack("<III4x", off, len(d), fl))
         blob[off] = d
         off += len(d) + (item_gap if item_gap else 0)
         off = -(-off // 8) * 8
+    # the order of the table entries is independent of where the items are stored
+    if meta_table_order == "shuffle":
+        rng.shuffle(entries)
+    elif meta_table_order == "rev":
+        entries.reverse()
+    mt += b"".join(entries)
     sf.put(meta_mb * MB, mt)
     for o, d in blob.items():
         sf.put(meta_mb * MB + o, d)
